@@ -18,4 +18,14 @@ b,e='<!-- seed-table-begin -->','<!-- seed-table-end -->'
 if b in s:
     s=s[:s.index(b)+len(b)]+'\n'+table+'\n'+s[s.index(e):]
     open(p,'w').write(s)
+lessons=['What the misses taught (details in each `meta.json` under `strengthening_or_note`):','']
+for d in sorted(os.listdir('/verif/seeded')):
+    m=json.load(open(f'/verif/seeded/{d}/meta.json'))
+    if not m.get('caught_initially') and m.get('strengthening_or_note'):
+        lessons.append(f"* **{d}** — {m['strengthening_or_note']}.")
+s=open(p).read()
+b,e='<!-- seed-lessons-begin -->','<!-- seed-lessons-end -->'
+if b in s:
+    s=s[:s.index(b)+len(b)]+'\n'+'\n'.join(lessons)+'\n'+s[s.index(e):]
+    open(p,'w').write(s)
 print(n,'seeds,',first,'caught initially')
